@@ -99,6 +99,11 @@ func newKWorld(t *testing.T, o kOpts) *kWorld {
 	cfg.Quota.Logins.Enabled = false
 	cfg.Forwarding.Mode = config.NoneForwardingMode
 	cfg.Compression.Threshold = o.ClientThreshold
+	// NOTE: the proxy computes timeouts as time.Duration(cfg.X)*time.Millisecond although cfg.X already is a
+	// duration in nanoseconds (the default 5s becomes ~57 days). The kit stores the millisecond COUNT so that the
+	// effective timeouts are the intended 5 s / 30 s and the timeout paths are reachable on the fake clock.
+	cfg.ConnectionTimeout = 5000
+	cfg.ReadTimeout = 30000
 	cfg.BuiltinCommands = false
 	cfg.BungeePluginChannelEnabled = false
 	if o.Mutate != nil {
@@ -387,3 +392,6 @@ func (w *kWorld) backendAccept(c, b *kPeer, protocol proto.Protocol, name string
 	synctest.Wait()
 	return nil
 }
+
+var cfgStartUpdate cfgpacket.StartUpdate
+var cfgFinishedUpdate cfgpacket.FinishedUpdate
